@@ -462,18 +462,18 @@ def _dests(hosts=HOSTS, ports=PORTS, schemes=("http", "https")):
 
 def obligations(tier):
     q = tier == "quick"
-    full_addon = ["none", "host", "port", "scheme", "via1", "via-none"] if q else ["none", "host", "scheme", "via1", "via2"]
+    full_addon = ["none", "host", "port", "scheme", "via1", "via-none"] if q else ["none", "host", "via1"]
     origin_q = ["respond", "respond-close"]
     origin_all = ["respond", "respond-close", "close"]
     cfgs = {
         "history-h1-regular": dict(k=2 if q else 3, modes=["regular"], dests=_dests(), addon=full_addon, open=["ok", "error"], origin=origin_q),
         "history-h1-upstream": dict(k=2 if q else 3, modes=["upstream"], dests=_dests(), addon=full_addon, open=["ok", "error"], origin=origin_q),
-        "history-h1-transparent": dict(k=3 if q else 4, modes=["transparent"], preconnected=[False, True], dests=[],
+        "history-h1-transparent": dict(k=3, modes=["transparent"], preconnected=[False, True], dests=[],
                                        addon=["none", "host", "port", "scheme", "via1", "via2", "via-none"], open=["ok", "error"], origin=origin_all),
         "history-h1-deep": dict(k=3 if q else 5, modes=["regular", "upstream"], dests=_dests(schemes=("http",)) if q else _dests(ports=PORTS[:1], schemes=("http",)),
                                 addon=["none", "host"], open=["ok", "error"] if q else ["ok"], origin=origin_q),
         "history-h2-client": dict(k=2 if q else 3, client_h2=True, modes=["regular", "upstream"], upstream_alpn=["h1", "h2"], concurrent=[False, True],
-                                  dests=_dests(ports=PORTS[:1]), addon=["none", "host", "via1"] if q else ["none", "host"], open=["ok", "error"], origin=["respond"] if q else origin_q),
+                                  dests=_dests(ports=PORTS[:1]), addon=["none", "host", "via1"] if q else ["none", "host"], open=["ok", "error"], origin=["respond"]),
     }
     hist_enc = ENCODED[2:]
     stubs = ["mitmproxy.proxy.layers.http.tls.ServerTLSLayer -> transparent tunnel stub (handshake succeeds, harness-chosen ALPN)"]
